@@ -17,6 +17,13 @@ def flags_input(w, inp):
     w.seen(f)
     unknown = f & ~KNOWN_MASK
     s, e = try_(to_flags_data, f)
+    if f < 0:
+        # a negative word (co_flags is a C int; 3.7 accepts the sign bit) has every high bit set: it cannot be
+        # represented and must raise.  The model's words are naturals: direct oracle only (seeded change C11-r4)
+        w.stats['negative_flag_words'] += 1
+        if e is None:
+            w.violation('C11:unknown-bit-not-raised', inp, {'word': hex(f), 'unknown': hex(unknown), 'got': sorted(s)})
+        return
     if e is not None:
         w.op('M', 'flags %s %d' % (VS, f), 'ERR')
         w.stats['flag_words_raise'] += 1
@@ -85,13 +92,14 @@ def header_input(w, inp):
     kw = {}
     if 'flags' in inp: kw['co_flags'] = inp['flags']
     if 'xor' in inp: kw['co_flags'] = c.co_flags ^ inp['xor']
+    if 'signbit' in inp: kw['co_flags'] = (c.co_flags ^ inp['signbit']) - 2 ** 31
     for a in ('co_argcount', 'co_kwonlyargcount', 'co_posonlyargcount', 'co_nlocals'):
         if a in inp and (a != 'co_posonlyargcount' or V >= (3, 8)):
             kw[a] = getattr(c, a) + inp[a]
     if 'varnames' in inp:
         kw['co_varnames'] = tuple(inp['varnames'])
         kw['co_nlocals'] = len(inp['varnames'])
-    if any(isinstance(v, int) and v < 0 for v in kw.values()):
+    if any(isinstance(v, int) and v < 0 for a, v in kw.items() if a != 'co_flags'):
         return
     k = replace_code(c, **kw)
     if k is None:
@@ -100,7 +108,10 @@ def header_input(w, inp):
     w.stats['altered_headers'] += 1
     w.seen(ser.s_code(k))
     d, e = try_(CodeData.from_code, k)
-    m_decode(w, k, d, e)
+    if k.co_flags >= 0:
+        m_decode(w, k, d, e)
+    else:
+        w.stats['negative_co_flags'] += 1        # 3.7 only; outside the model's domain (naturals): direct oracle only
     if e is not None:
         w.stats['from_code_raises'] += 1
         return
@@ -141,6 +152,15 @@ def run_C11(w):
         if rng.random() < .3:
             f |= 1 << rng.randrange(31)
         words.append(f)
+    # negative words (the sign bit of the C int) and words wider than 32 bits
+    words += [-1, -2, -2 ** 31, -2 ** 31 + KNOWN_MASK, 1 << 31, 1 << 32, (1 << 40) | 3, -(1 << 40), 2 ** 63, -2 ** 63]
+    for _ in range(200 if w.tier != 'thorough' else 2000):
+        f = 0
+        for b in KNOWN_BITS:
+            if rng.random() < .3:
+                f |= 1 << b
+        words.append(f - 2 ** rng.choice([31, 31, 31, 32, 63]))
+        words.append(f | 1 << rng.randrange(31, 70))
     for i, f in enumerate(words):
         if i % w.nshards == w.shard:
             w.guard(flags_input, w, {'kind': 'flagword', 'word': f})
@@ -161,6 +181,9 @@ def run_C11(w):
         for m in (0x20, 0x80, 0x200, 0xa0, 0x220, 0x280, 0x10, 0x40, 0x50, 0x100):
             inputs.append({'kind': 'header', 'base': name, 'xor': m})
             inputs.append({'kind': 'header', 'base': name, 'xor': m | 3})
+        # the sign bit (accepted by the 3.7 constructor only)
+        for m in (0, 4, 8, 0x40):
+            inputs.append({'kind': 'header', 'base': name, 'signbit': m})
         for dlt in (-2, -1, 1, 2):
             inputs.append({'kind': 'header', 'base': name, 'co_nlocals': dlt})
         for a in ('co_argcount', 'co_kwonlyargcount', 'co_posonlyargcount'):
